@@ -294,7 +294,7 @@ BUDGET = {"quick": dict(n_random=60, n_negdv=8, n_small=20), "thorough": dict(n_
 
 def run(tier, seed):
     import runner
-    b = BUDGET[tier]
+    b, tier = runner.budget(BUDGET, tier)
     kinds = ["random"] * b["n_random"] + ["negdv"] * b["n_negdv"] + ["small"] * b["n_small"] \
         + [f"bench:{n}" for n in BENCH]
     tasks = [(seed, i, k, tier) for i, k in enumerate(kinds)]
